@@ -95,6 +95,17 @@ def describe(v, w):
 
 # ------------------------------------------------------------------ expression evaluation
 
+def const_of(v, w):
+    """the integer if the abstract value is a constant (independent of the segment input), else None"""
+    if v is None:
+        return None
+    if "aff" in v and v["aff"][0] == 0:
+        return v["aff"][1]
+    if "lin" in v and not any(v["lin"][0]):
+        return v["lin"][1]
+    return None
+
+
 def _lit_int(n):
     n = strip(n)
     if n["k"] == "Lit" and n.get("lk") == "int":
@@ -142,8 +153,13 @@ def evaluate(n, state, w):
         op = n["op"]
         if op in ("<<", ">>"):
             s = _lit_int(n["r"])
+            if s is None:
+                try:
+                    s = const_of(evaluate(n["r"], state, w), w)
+                except Top:
+                    s = None
             if s is None or not (0 <= s < w):
-                raise Top("shift by a non-literal or out-of-range amount", n)
+                raise Top("shift by a non-constant or out-of-range amount", n)
             v = evaluate(n["l"], state, w)
             out = {}
             if op == "<<":
@@ -166,6 +182,14 @@ def evaluate(n, state, w):
             if "lin" in a and "lin" in b:
                 return {"lin": ([x ^ y for x, y in zip(a["lin"][0], b["lin"][0])], a["lin"][1] ^ b["lin"][1])}
             raise Top("xor of values not both GF(2)-linear in the segment input", n)
+        if op in ("+", "-", "*"):
+            # exact on constants when the result stays in range (no overflow panic, no wrap)
+            a = const_of(evaluate(n["l"], state, w), w)
+            b = const_of(evaluate(n["r"], state, w), w)
+            if a is not None and b is not None:
+                r_ = a + b if op == "+" else a - b if op == "-" else a * b
+                if 0 <= r_ <= mask:
+                    return const(r_, w)
         raise Top("operator %s is not one of the exact transfer functions (plain + - * can overflow-panic)" % op, n)
     if k == "MethodCall":
         name = n["name"]
@@ -197,13 +221,41 @@ def evaluate(n, state, w):
                 s = (w - s) % w
             rot = lambda x: ((x << s) | (x >> (w - s))) & mask if s else x
             return {"lin": ([rot(c) for c in v["lin"][0]], rot(v["lin"][1]))}
+        if name == "fold" and len(n["args"]) == 2 and n["args"][1]["k"] == "Closure" and len(n["args"][1]["params"]) == 2:
+            # (lo..hi | lo..=hi).fold(init, |acc, i| body) with constant bounds: unrolled
+            rng = strip(n["recv"])
+            lo = hi = None
+            if rng["k"] == "Call" and str(rng.get("callee", "")).split("::<")[0].endswith("RangeInclusive") and len(rng["args"]) == 2:
+                lo, hi = const_of(evaluate(rng["args"][0], state, w), w), const_of(evaluate(rng["args"][1], state, w), w)
+                if hi is not None:
+                    hi += 1
+            elif rng["k"] == "Struct" and {f["name"] for f in rng.get("fields", [])} == {"start", "end"}:
+                fs = {f["name"]: f["e"] for f in rng["fields"]}
+                lo, hi = const_of(evaluate(fs["start"], state, w), w), const_of(evaluate(fs["end"], state, w), w)
+            cl = n["args"][1]
+            pa, pi = cl["params"]
+            if lo is None or hi is None or hi - lo > 4 * w or pa.get("k") != "Bind" or pi.get("k") != "Bind":
+                raise Top("fold over a range whose bounds are not constants", n)
+            acc = evaluate(n["args"][0], state, w)
+            for i_ in range(lo, hi):
+                st2 = dict(state)
+                st2[pa["id"]] = acc
+                st2[pi["id"]] = const(i_, w)
+                acc = evaluate(cl["body"], st2, w)
+            return acc
         raise Top("method %s has no exact transfer function" % name, n)
     raise Top("expression kind %s has no exact transfer function" % k, n)
 
 
 def _uses(n, acc):
+    bound = set()
     for x in hirq.walk(n):
-        if x["k"] == "Path" and "local" in x["res"]:
+        if x["k"] == "Closure":
+            for p_ in x.get("params", []):
+                if p_.get("k") == "Bind":
+                    bound.add(p_["id"])
+    for x in hirq.walk(n):
+        if x["k"] == "Path" and "local" in x["res"] and x["res"]["local"] not in bound:
             acc.add(x["res"]["local"])
 
 
@@ -278,13 +330,16 @@ def segments_of(fn, w):
                     pass
                 lb = live_before[j]
                 st_j = before[j]
-                carriers = [v for v in lb if v in st_j]
-                if len(lb) != 1 or len(carriers) != 1:
+                consts = {v: st_j[v] for v in lb if v in st_j and const_of(st_j[v], w) is not None}
+                lbn = [v for v in lb if v not in consts]
+                carriers = [v for v in lbn if v in st_j]
+                if len(lbn) != 1 or len(carriers) != 1:
                     continue
                 c = carriers[0]
                 if j == last_cut and st_j[c] == ident(w):
                     continue  # cutting here changes nothing
-                trial = {c: ident(w)}
+                trial = dict(consts)
+                trial[c] = ident(w)
                 ok = True
                 for k2 in range(j, i + 1):
                     t2, e2, _n2, _ = stmts[k2]
@@ -296,7 +351,8 @@ def segments_of(fn, w):
                 if ok:
                     segs.append((st_j[c], hirq.loc(stmts[j][2])))
                     # states before j+1..i are now relative to the new segment
-                    replay = {c: ident(w)}
+                    replay = dict(consts)
+                    replay[c] = ident(w)
                     for k2 in range(j, i + 1):
                         before[k2] = dict(replay)
                         t2, e2, _n2, _ = stmts[k2]
